@@ -6,6 +6,7 @@ Driver for correspondence stream `kv` (property C19).  Requests:
         discrete facts from the exact (`Rat`) `makeKnots`; every implementation knot must lie
         within the running error bound of `i*((b-a)/n)+a` (end knots: bound 0, i.e. exactly a, b)
   q p <kv>                  -> `mesh=<rats> k2m=<nats> spans=… dofs=… msia=<pairs> msi=<nats> supp=<pairs>`
+  supp p <kv>               -> `all=lo,hi j=<lo,hi per basis function>`  (support() and support(j), j = 0..numdofs-1)
   fs p <kv> <us>            -> `<spans> <first_active>`
   grev p <kv> <vals>        -> `n=… vals=ok|bad:… dom=ok|bad:i`   (dom: the model's value is in [kv[0],kv[-1]])
   refw <kv> <new>           -> `<rats>`  (sorted union, exact)
@@ -74,6 +75,14 @@ def request : P String := do
         | some (_, i) => s!"bad:{i}"
         | none => "ok"
       pure s!"n={ex.length} vals={cmpVals er vals} dom={dom}"
+  | "supp" => do
+      -- `KnotVector.support()` (whole vector) and `support(j)` for every basis function j = 0 .. numdofs-1
+      let p ← nat; let kv ← list rat
+      let nd := numdofs kv p
+      let all := (getK kv 0, getK kv (kv.length - 1))
+      let sj := (List.range nd).map (fun j => support kv p j)
+      let sh := fun (q : Rat × Rat) => s!"{showRat q.1},{showRat q.2}"
+      pure s!"all={sh all} j={showList sh sj}"
   | "refw" => do
       let kv ← list rat; let new ← list rat
       pure (showRats (refineWith kv new))
